@@ -4,3 +4,4 @@ let rec n_ (i : int) : nat = if i <= 0 then O else S (n_ (i - 1))
 let rec p_ (i : int) : positive =
   if i <= 1 then XH else if i land 1 = 1 then XI (p_ (i lsr 1)) else XO (p_ (i lsr 1))
 let z_ (i : int) : z = if i = 0 then Z0 else if i > 0 then Zpos (p_ i) else Zneg (p_ (- i))
+let s_ (s : string) : char list = List.of_seq (String.to_seq s)
